@@ -320,6 +320,7 @@ type resIface interface {
 	Count(string, int64)
 	Violation(string, string, interface{})
 	Inconcl(string)
+	Max(string, int64)
 }
 
 func valOf(e *miniredis.Entry) *rdbgen.Value {
